@@ -567,6 +567,12 @@ fn worker(seed: u64, from: u64, to: u64, tier: &str, scratch: &Path) -> (Value, 
         if o.max_error_line > 1000 {
             bump("probe_error_item_line_gt_1000", 1);
         }
+        if o.max_error_line > 65_536 {
+            bump("probe_error_item_line_gt_65536", 1);
+        }
+        if case.file.rows.len() > 65_536 {
+            bump("probe_file_with_more_than_65536_lines", 1);
+        }
         if o.line_longer_than_buffer {
             bump("probe_line_longer_than_bufreader", 1);
         }
